@@ -445,3 +445,38 @@ pub(crate) fn default_ll_table() -> FSETable {
 pub(crate) fn default_of_table() -> FSETable {
     build_table_from_probabilities(OF_DIST, 5)
 }
+
+/// Verification hooks: read-only views of the encoder table and the crate-private constructors.
+#[cfg(killingspark_zstd_rs_verif)]
+impl FSETable {
+    /// Probabilities per symbol (up to and including the last non-zero one).
+    pub fn verif_probabilities(&self) -> Vec<i32> {
+        let last = self
+            .states
+            .iter()
+            .rposition(|s| s.probability != 0)
+            .unwrap_or(0);
+        self.states[..=last].iter().map(|s| s.probability).collect()
+    }
+
+    /// Every encoder state as (symbol, index in the decoding table, number of bits, baseline).
+    pub fn verif_states(&self) -> Vec<(u8, usize, u8, usize)> {
+        let mut out = Vec::new();
+        for (symbol, states) in self.states.iter().enumerate() {
+            for state in &states.states {
+                out.push((symbol as u8, state.index, state.num_bits, state.baseline));
+            }
+        }
+        out
+    }
+}
+
+#[cfg(killingspark_zstd_rs_verif)]
+pub fn verif_table_from_probabilities(probs: &[i32], acc_log: u8) -> FSETable {
+    build_table_from_probabilities(probs, acc_log)
+}
+
+#[cfg(killingspark_zstd_rs_verif)]
+pub fn verif_default_tables() -> (FSETable, FSETable, FSETable) {
+    (default_ll_table(), default_ml_table(), default_of_table())
+}
